@@ -615,6 +615,51 @@ fn eval(a: &[String]) -> String {
       }
       out
     }
+    "day_nine_star_breaks" => {
+      // days d in [v0-01-01, v1-12-31] where star(d+1) - star(d) is neither +1 nor -1 (mod 9), or the direction changes: "y-m-d:a>b"
+      let mut d = SolarDay::from_ymd(v[0] as isize, 1, 1);
+      let end = SolarDay::from_ymd(v[1] as isize, 12, 31);
+      let mut out = String::new();
+      let mut prev = d.get_lunar_day().get_nine_star().get_index() as i64;
+      let mut dir = 0i64;
+      while d.is_before(end) {
+        let n = d.next(1);
+        let s = n.get_lunar_day().get_nine_star().get_index() as i64;
+        let delta = (s - prev).rem_euclid(9);
+        let nd = if delta == 1 { 1 } else if delta == 8 { -1 } else { 0 };
+        if nd == 0 || (dir != 0 && nd != dir) { out += &format!("{}-{}-{}:{}>{}({}) ", n.get_year(), n.get_month(), n.get_day(), prev, s, n.get_sixty_cycle_day().get_sixty_cycle().get_index()); }
+        if nd != 0 { dir = nd; }
+        prev = s; d = n;
+      }
+      out
+    }
+    "day_nine_star_scan" => {
+      // v[0]: 0 = dates on/after the civil year's first turning day, 1 = dates before it; v[1]: 0 LunarDay route, 1 SixtyCycleDay route.
+      // turning days recomputed here from the real solstice days and the day pillar (JD+49 mod 60)
+      let mut out = "NONE".to_string();
+      let pillar = |d: &SolarDay| ((d.get_julian_day().get_day() + 0.5).floor() as i64 + 49).rem_euclid(60);
+      let nearest = |d: SolarDay| { let p = pillar(&d); d.next(if p > 29 { 60 - p } else { -p } as isize) };
+      'scan: for y in (1900isize..2101).chain(1570..1590).chain(9990..9998) {
+        let w = SolarTerm::from_index(y, 0);
+        let a = nearest(w.get_julian_day().get_solar_day());
+        let n = nearest(w.next(12).get_julian_day().get_solar_day());
+        let a2 = nearest(w.next(24).get_julian_day().get_solar_day());
+        let np = nearest(w.next(-12).get_julian_day().get_solar_day());
+        let mut d = SolarDay::from_ymd(y, 1, 1);
+        for _ in 0..(if v[0] == 1 { 60 } else { 366 }) {
+          if d.get_year() != y { break; }
+          let early = d.is_before(a);
+          if early == (v[0] == 1) {
+            let want = if early { (8 - d.subtract(np) as i64).rem_euclid(9) } else if d.is_before(n) { (d.subtract(a) as i64).rem_euclid(9) }
+              else if d.is_before(a2) { (8 - d.subtract(n) as i64).rem_euclid(9) } else { (d.subtract(a2) as i64).rem_euclid(9) };
+            let got = if v[1] == 0 { d.get_lunar_day().get_nine_star().get_index() } else { d.get_sixty_cycle_day().get_nine_star().get_index() } as i64;
+            if got != want { out = format!("{}-{}-{} star index {} expected {} (previous turning day {}-{}-{})", d.get_year(), d.get_month(), d.get_day(), got, want, np.get_year(), np.get_month(), np.get_day()); break 'scan; }
+          }
+          d = d.next(if v[0] == 1 { 1 } else { 3 });
+        }
+      }
+      out
+    }
     "fortune_scan" => {
       // decade / yearly fortunes of births on every 3rd day of 2000-2001 (both genders): ages, years and pillars against the rule
       use tyme4rs::tyme::eightchar::ChildLimit;
